@@ -594,7 +594,8 @@ func planFragmentMatches(schema Schema, typeConditionAST *ast.Named, runtime *Ob
 		return true
 	}
 	conditionalType, err := typeFromAST(schema, typeConditionAST)
-	if err != nil {
+	if err != nil || conditionalType == nil {
+		// unknown type in an unvalidated document: the fragment applies to nothing
 		return false
 	}
 	if conditionalType == runtime {
